@@ -265,6 +265,17 @@ def in_ranges(z, ranges):
 
 
 # --------------------------------------------------------------------------
+def _short(z):
+    """cheap text for a term in a repr (pretty-printing a large term takes seconds; pvl builds error messages
+    with values in them on paths where the message is never looked at)"""
+    try:
+        if z.num_args() == 0:
+            return str(z)
+        return "term#%d" % z.get_id()
+    except Exception:
+        return "term"
+
+
 class SymBool:
     __slots__ = ("z",)
 
@@ -299,7 +310,7 @@ class SymBool:
         raise Unsupported("hash of SymBool")
 
     def __repr__(self):
-        return "SymBool(%s)" % self.z
+        return "SymBool(%s)" % _short(self.z)
 
 
 def I(x):
@@ -428,7 +439,7 @@ class SymInt:
         return cmodels.format_int(self, spec)
 
     def __repr__(self):
-        return "SymInt(%s)" % self.z
+        return "SymInt(%s)" % _short(self.z)
 
 
 class SymRat:
@@ -482,7 +493,7 @@ class SymChar:
         self.dom = dom
 
     def __repr__(self):
-        return "<%s>" % self.z
+        return "<%s>" % _short(self.z)
 
 
 _cheq_cache = {}
